@@ -7,6 +7,7 @@ from collections import defaultdict
 import callgraph
 import g1_panic
 import lalr
+import mirutil
 from facts import find_hir, strip
 
 LEVEL = "other"
@@ -50,6 +51,304 @@ def run(F, rep, tier):
                 rep.ok(r3, "driver:%s" % k, msg)
             else:
                 rep.violation(r3, "driver:%s" % k, msg, "feel-parser/src/lalr.rs")
+    lexer_progress_rule(F, rep)
+
+
+# ======================================================================================================
+# R05.4: the lexer's loops make progress
+def lexer_progress_rule(F, rep):
+    """Termination of the scanner: in every loop of a Lexer method each iteration moves the cursor forward (directly, or through a method that advances on
+    every Ok return), steps a bounded iterator, or counts a local counter down. Decided on the MIR control-flow graph: after removing the progress blocks
+    from a loop no cycle may remain."""
+    rid = rep.rule("R05.4", "lexer loops make progress: every cycle of every loop in a Lexer method advances the cursor, steps an iterator or decrements a counter")
+    adt = F.adts.get("dmntk_feel_parser::lexer::Lexer")
+    if adt is None:
+        rep.missing_anchor(rid, "dmntk_feel_parser::lexer::Lexer")
+        return
+    pos = [i for i, f in enumerate(adt["variants"][0]["fields"]) if f["name"] == "position"]
+    if not pos:
+        rep.missing_anchor(rid, "Lexer.position")
+        return
+    pos = pos[0]
+    fns = {n: b for n, b in F.bodies.items() if re.match(r"^dmntk_feel_parser::lexer::Lexer::(<[^>]*>::)?\w+$", n) and b["kind"] != "closure"}
+
+    def is_pos_place(pl):
+        return len(pl) == 3 and pl[0] == 1 and pl[1] == "*" and isinstance(pl[2], list) and pl[2][0] == "." and pl[2][1] == pos
+
+    def local_progress(b, B):
+        """blocks that advance the cursor, step an iterator or decrement a counter"""
+        out = set()
+        for bi, bl in enumerate(b["blocks"]):
+            for st in bl["s"]:
+                if st[0] != "A":
+                    continue
+                dest, rv = st[1], st[2]
+                if rv[0] != "Use" or rv[1][0] not in ("C", "M"):
+                    continue
+                src = rv[1][1]
+                if not (len(src) == 2 and isinstance(src[1], list) and src[1][0] == "." and src[1][1] == 0):
+                    continue
+                defs = B.defs.get(src[0], [])
+                if len(defs) != 1 or defs[0][2] != "assign" or defs[0][3][2][0] != "Bin":
+                    continue
+                bop, a, c = defs[0][3][2][1], defs[0][3][2][2], defs[0][3][2][3]
+                if c[0] != "K" or len(c) < 4 or not isinstance(c[3], int) or c[3] < 1 or a[0] not in ("C", "M"):
+                    continue
+                if bop == "AddWithOverflow" and is_pos_place(dest) and is_pos_place(a[1]):
+                    out.add(bi)          # self.position += k
+                if bop in ("SubWithOverflow", "AddWithOverflow") and len(dest) == 1 and a[1] == dest:
+                    out.add(bi)          # counter -= k / offset += k on a local (overflow / underflow is a panic site of R05.1; the scan ends when char_at() is None)
+            t = bl["t"]
+            if t[0] == "call":
+                p = t[1]["f"].get("p") or ""
+                if re.search(r"Iterator(<.*>)?>?::next$|::iter::.*::next$|range::.*::next$", p):
+                    out.add(bi)
+        return out
+
+    def err_blocks(b):
+        out = set()
+        for bi, bl in enumerate(b["blocks"]):
+            for st in bl["s"]:
+                if st[0] == "A" and st[1] == [0] and st[2][0] == "Agg" and isinstance(st[2][1], list) and st[2][1][0] == "adt" and st[2][1][1].endswith("result::Result") and st[2][1][-1] == "Err":
+                    out.add(bi)
+            t = bl["t"]
+            if t[0] == "call" and t[1].get("dest") == [0] and (t[1]["f"].get("p") or "").endswith("FromResidual>::from_residual"):
+                out.add(bi)
+            if t[0] == "call" and t[1].get("target") is None:
+                out.add(bi)              # diverging call
+        return out
+
+    bodies = {n: (b, mirutil.Body(F, b)) for n, b in fns.items()}
+    lp = {n: local_progress(b, B) for n, (b, B) in bodies.items()}
+    eb = {n: err_blocks(b) for n, (b, B) in bodies.items()}
+    # must-advance-or-fail summaries (fixpoint from below)
+    ADV = set()
+
+    def calls_adv(b):
+        return {bi for bi, bl in enumerate(b["blocks"]) if bl["t"][0] == "call" and (bl["t"][1]["f"].get("p") or "") in ADV}
+    changed = True
+    while changed:
+        changed = False
+        for n, (b, B) in bodies.items():
+            if n in ADV:
+                continue
+            stop = lp[n] | eb[n] | calls_adv(b)
+            seen, work, reach_ret = {0}, [0], False
+            if 0 in stop:
+                work = []
+            while work:
+                x = work.pop()
+                t = b["blocks"][x]["t"]
+                if t[0] == "ret":
+                    reach_ret = True
+                    break
+                for y in mirutil.normal_successors(t):
+                    if y not in seen and y not in stop:
+                        seen.add(y)
+                        work.append(y)
+            if not reach_ret:
+                ADV.add(n)
+                changed = True
+    nloops = 0
+    for n, (b, B) in sorted(bodies.items()):
+        prog = lp[n] | calls_adv(b)
+        blocks = b["blocks"]
+        nodes = [i for i, bl in enumerate(blocks) if not bl.get("cleanup")]
+        succ = {i: [y for y in mirutil.normal_successors(blocks[i]["t"]) if not blocks[y].get("cleanup")] for i in nodes}
+        sccs = _sccs(nodes, succ)
+        k = 0
+        for comp in sccs:
+            cs = set(comp)
+            if len(comp) == 1 and comp[0] not in succ[comp[0]]:
+                continue
+            nloops += 1
+            short = n.split("::")[-1]
+            key = "loop:%s#%d" % (short, k)
+            k += 1
+            rest = [x for x in comp if x not in prog]
+            rsucc = {x: [y for y in succ[x] if y in cs and y not in prog] for x in rest}
+            bad = [c for c in _sccs(rest, rsucc) if len(c) > 1 or c[0] in rsucc[c[0]]]
+            lines = sorted({st[-1] for x in comp for st in blocks[x]["s"] if isinstance(st[-1], int)})
+            where = "%s:%s" % (b["file"], lines[0] if lines else b["line"])
+            if not bad:
+                rep.ok(rid, key, "every cycle passes a progress block (%d of %d blocks)" % (len(cs & prog), len(cs)))
+            elif _state_machine_ok(b, B, rest, rsucc):
+                rep.ok(rid, key, "state machine: with the constant state variable tracked, every cycle passes a progress block")
+            else:
+                bl_lines = sorted({st[-1] for c in bad for x in c for st in blocks[x]["s"] if isinstance(st[-1], int)})
+                rep.violation(rid, key, "a cycle of the loop in %s (source lines %s) neither moves the cursor, nor steps an iterator, nor counts down: the scanner may not terminate on some input"
+                              % (short, bl_lines[:8]), where)
+    rep.floor(rid, "lexer loops", nloops, 9)
+    rep.floor(rid, "lexer methods that advance on every Ok return", len(ADV), 5)
+
+
+def _state_machine_ok(b, B, rest, rsucc):
+    """The progress-free part of a loop still has cycles in the plain CFG. Explore it path-sensitively, tracking (a) one local that only ever holds
+    constants (`state = 2`): a `match state` follows only the arm of the tracked value; (b) the results of `&self` predicates without further arguments
+    (`self.is_next_whitespace()`): inside the progress-free part neither the cursor nor any other field of the lexer is written, so a predicate that was
+    true stays true. True if, for some state local, the product graph has no cycle."""
+    blocks = b["blocks"]
+    rest_set = set(rest)
+    # soundness side condition for (b): no write through self in the progress-free blocks
+    for x in rest:
+        for st in blocks[x]["s"]:
+            if st[0] == "A" and len(st[1]) > 1 and st[1][0] == 1 and st[1][1] == "*":
+                return False
+    cands = {}
+    for l, defs in B.defs.items():
+        vals = []
+        for (bi, si, kind, st) in defs:
+            if kind == "assign" and st[1] == [l] and st[2][0] == "Use" and st[2][1][0] == "K" and len(st[2][1]) > 3 and isinstance(st[2][1][3], int):
+                vals.append(st[2][1][3])
+            else:
+                vals = None
+                break
+        if vals and len(set(vals)) > 1 and not B.is_arg(l):
+            cands[l] = sorted(set(vals))
+
+    def through_copies(l):
+        for _ in range(4):
+            defs = B.defs.get(l, [])
+            if len(defs) == 1 and defs[0][2] == "assign" and defs[0][3][2][0] == "Use" and defs[0][3][2][1][0] in ("C", "M") and len(defs[0][3][2][1][1]) == 1:
+                l = defs[0][3][2][1][1][0]
+            else:
+                break
+        return l
+
+    def switch_on(t):
+        if t[0] != "switch" or t[1][0] not in ("C", "M") or len(t[1][1]) != 1:
+            return None
+        return through_copies(t[1][1][0])
+
+    def predicate_of(l):
+        """name of the &self predicate whose result local l holds"""
+        defs = B.defs.get(l, [])
+        if len(defs) != 1 or defs[0][2] != "call":
+            return None
+        c = defs[0][3]
+        p = c["f"].get("p") or ""
+        if not re.match(r"^dmntk_feel_parser::lexer::Lexer::(<[^>]*>::)?\w+$", p) or len(c.get("args", [])) != 1:
+            return None
+        a = c["args"][0]
+        if a[0] not in ("C", "M") or len(a[1]) != 1 or "&mut" in B.local_ty(a[1][0]) or B.local_ty(l) != "bool":
+            return None
+        return p
+    for l, vals in cands.items():
+        if not any(switch_on(blocks[x]["t"]) == l for x in rest):
+            continue
+
+        def succs(node):
+            x, v, preds = node
+            for st in blocks[x]["s"]:
+                if st[0] == "A" and st[1] == [l]:
+                    v = st[2][1][3]
+            t = blocks[x]["t"]
+            sl = switch_on(t)
+            out = []
+            if sl == l:
+                tg = [tb for val, tb in t[2] if val == v] or [t[3]]
+                out = [(y, v, preds) for y in tg]
+            elif sl is not None and predicate_of(sl):
+                pn = predicate_of(sl)
+                known = dict(preds)
+                listed = {val for val, _ in t[2]}
+                edges = [(val != 0, tb) for val, tb in t[2]]
+                if listed == {0}:
+                    edges.append((True, t[3]))       # switchInt(bool) [0 -> F], otherwise -> T
+                elif listed == {1}:
+                    edges.append((False, t[3]))
+                else:
+                    edges = [(None, tb) for _, tb in t[2]] + [(None, t[3])]
+                for truth, tb in edges:
+                    if truth is None:
+                        out.append((tb, v, preds))
+                        continue
+                    if pn in known and known[pn] != truth:
+                        continue
+                    k2 = dict(known)
+                    k2[pn] = truth
+                    out.append((tb, v, frozenset(k2.items())))
+            else:
+                out = [(y, v, preds) for y in rsucc[x]]
+            return [n for n in out if n[0] in rest_set and n[0] in rsucc[x]]
+        # cycle detection by DFS colouring from every start node
+        colour = {}
+        cyc = False
+        for x in rest:
+            for v in vals:
+                start = (x, v, frozenset())
+                if start in colour:
+                    continue
+                stack = [(start, iter(succs(start)))]
+                colour[start] = 1
+                while stack and not cyc:
+                    node, it = stack[-1]
+                    adv = False
+                    for n in it:
+                        c = colour.get(n)
+                        if c == 1:
+                            cyc = True
+                            break
+                        if c is None:
+                            colour[n] = 1
+                            stack.append((n, iter(succs(n))))
+                            adv = True
+                            break
+                    if cyc:
+                        break
+                    if not adv:
+                        colour[node] = 2
+                        stack.pop()
+                if cyc:
+                    break
+            if cyc:
+                break
+        if not cyc:
+            return True
+    return False
+
+
+def _sccs(nodes, succ):
+    """Tarjan, iterative"""
+    index, low, onst, st, out = {}, {}, set(), [], []
+    cnt = [0]
+    for r in nodes:
+        if r in index:
+            continue
+        work = [(r, iter(succ.get(r, ())))]
+        index[r] = low[r] = cnt[0]
+        cnt[0] += 1
+        st.append(r)
+        onst.add(r)
+        while work:
+            v, it = work[-1]
+            adv = False
+            for w in it:
+                if w not in index:
+                    index[w] = low[w] = cnt[0]
+                    cnt[0] += 1
+                    st.append(w)
+                    onst.add(w)
+                    work.append((w, iter(succ.get(w, ()))))
+                    adv = True
+                    break
+                elif w in onst:
+                    low[v] = min(low[v], index[w])
+            if adv:
+                continue
+            work.pop()
+            if work:
+                low[work[-1][0]] = min(low[work[-1][0]], low[v])
+            if low[v] == index[v]:
+                comp = []
+                while True:
+                    w = st.pop()
+                    onst.discard(w)
+                    comp.append(w)
+                    if w == v:
+                        break
+                out.append(comp)
+    return out
 
 
 # ======================================================================================================
@@ -388,7 +687,8 @@ def run_inventory(F, rep, tier, pid, roots, floors, what):
             base = key.rsplit("#", 1)[0]
             cands = [k for k in audits_by_base.get(base, ()) if k not in used_audits]
             cands.sort(key=lambda k: (k != key, k))
-            hit = next((k for k in cands if all(g in sigs for g in audits[k].get("guards", []))), None)
+            opsig = g1_panic.site_opsig(A, s)
+            hit = next((k for k in cands if all(g in sigs for g in audits[k].get("guards", [])) and audits[k].get("ops", opsig) == opsig), None)
             if hit is not None:
                 used_audits.add(hit)
                 by_rule["audited"] += 1
@@ -397,7 +697,11 @@ def run_inventory(F, rep, tier, pid, roots, floors, what):
             if cands:
                 au = audits[cands[0]]
                 lost = [g for g in au.get("guards", []) if g not in sigs]
-                rep.violation(r1, key, "audited site lost its guard(s) %s (audit: %s); reachable via %s" % (lost, au["reason"], path_text(G, pred, n)), where)
+                if lost:
+                    rep.violation(r1, key, "audited site lost its guard(s) %s (audit: %s); reachable via %s" % (lost, au["reason"], path_text(G, pred, n)), where)
+                else:
+                    rep.violation(r1, key, "the operands of an audited site changed: the audit (%s) was written for %s, the site now computes %s; reachable via %s"
+                                  % (au["reason"][:160], au.get("ops"), opsig, path_text(G, pred, n)), where)
                 continue
             rep.violation(r1, key, "%s %s in %s is neither discharged nor audited (guards in force: %s); reachable via %s"
                           % (s.kind, s.what, n, sorted(sigs)[:6], path_text(G, pred, n)), where)
